@@ -34,7 +34,8 @@ impl<'a> McGroupStatusAnsPayload<'a> {
             return Err(Error::BufferTooShort);
         }
         let status = data[0];
-        let required_len = Self::required_len(status);
+        // status byte + one item per reported group
+        let required_len = 1 + Self::required_len(status);
         if data.len() < required_len {
             return Err(Error::BufferTooShort);
         }
